@@ -1078,9 +1078,10 @@ fn resolve_names_expr(ctx: &mut StaticsContext, symbol_table: &SymbolTable, expr
         }
         ExprKind::IfElse(cond, stmt1, expr2) => {
             resolve_names_expr(ctx, symbol_table, cond);
-            resolve_names_stmt(ctx, symbol_table, stmt1);
+            // a declaration that is itself a branch (`if c let x = 5`) is visible in that branch only
+            resolve_names_stmt(ctx, &symbol_table.new_scope(), stmt1);
             if let Some(stmt2) = expr2 {
-                resolve_names_stmt(ctx, symbol_table, stmt2);
+                resolve_names_stmt(ctx, &symbol_table.new_scope(), stmt2);
             }
         }
         ExprKind::Match(scrut, arms) => {
